@@ -192,3 +192,43 @@ class SymDict(dict):
 
     def update(self, *a, **k):
         raise S.HarnessError("code under test writes into its argument dictionary")
+
+
+class UnionDict(dict):
+    """F ∪ R for two (symbolic) dictionaries with F taking precedence"""
+
+    def __init__(self, f, r):
+        super().__init__()
+        self._f, self._r = f, r
+
+    def __contains__(self, k):
+        return (k in self._f) or (k in self._r)
+
+    def get(self, k, default=None):
+        if k in self._f:
+            return self._f.get(k)
+        return self._r.get(k, default)
+
+    def __getitem__(self, k):
+        if k in self:
+            return self.get(k)
+        raise KeyError(k)
+
+    def keys(self):
+        ks = list(self._f.keys())
+        return ks + [k for k in self._r.keys() if k not in ks]
+
+    def __iter__(self):
+        return iter(self.keys())
+
+    def items(self):
+        return [(k, self.get(k)) for k in self.keys()]
+
+    def values(self):
+        return [self.get(k) for k in self.keys()]
+
+    def __len__(self):
+        return len(self.keys())
+
+    def __setitem__(self, k, v):
+        raise S.HarnessError("code under test writes into its argument dictionary")
